@@ -557,8 +557,40 @@ def r01_5(ctx):
                 x = x.orelse
             final_else = ast.unparse(x.orelse)
             break
+        if not pairs:
+            # the same table as an if/elif statement chain that assigns the verdict to a local which is then returned scaled
+            def chain_expr(st, var):
+                if isinstance(st, ast.If) and len(st.body) == 1 and isinstance(st.body[0], ast.Assign) and ast.unparse(st.body[0].targets[0]) == var \
+                        and len(st.orelse) == 1:
+                    o = st.orelse[0]
+                    rest = chain_expr(o, var) if isinstance(o, ast.If) else (o.value if isinstance(o, ast.Assign) and ast.unparse(o.targets[0]) == var else None)
+                    if rest is not None:
+                        return ast.IfExp(test=st.test, body=st.body[0].value, orelse=rest)
+                return None
+            names = {x.id for x in ast.walk(node) if isinstance(x, ast.Name)}
+            for st in f.node.body:
+                for var in names:
+                    ce = chain_expr(st, var)
+                    if ce is not None:
+                        class _S(ast.NodeTransformer):
+                            def visit_Name(self, n, var=var, ce=ce):
+                                return ce if n.id == var else n
+                        import copy as _copy
+                        node = _S().visit(_copy.deepcopy(node))
+                        txt = ast.unparse(node)
+            for x in ast.walk(node):
+                if isinstance(x, ast.IfExp) and isinstance(x.test, ast.Compare) and ast.unparse(x.test.left) == "rel":
+                    pairs.append((ast.unparse(x.test.comparators[0]), ast.unparse(x.body)))
+            x = node
+            ies = [y for y in ast.walk(x) if isinstance(y, ast.IfExp) and isinstance(y.test, ast.Compare) and ast.unparse(y.test.left) == "rel"]
+            if ies:
+                x = ies[0]
+                while isinstance(x.orelse, ast.IfExp) and ast.unparse(x.orelse.test.left if isinstance(x.orelse.test, ast.Compare) else x.orelse.test) == "rel":
+                    x = x.orelse
+                final_else = ast.unparse(x.orelse)
         got = dict(pairs)
-        scaled = txt.startswith("2 * ")
+        t0 = txt.replace(" ", "")
+        scaled = txt.startswith("2 * ") or (t0.startswith("2if") and t0.endswith("else0"))
         if not pairs:
             # the same table as a dispatch dict of one-line predicates: D.get(rel, <ge>)(comp) / D[rel](comp)
             from .common import expand_locals
